@@ -302,6 +302,29 @@ func TestC01(t *testing.T) {
 			}
 		}
 	}
+	// fixed cases: text whose vocabulary exceeds the thresholds of the TEXT dictionary (tens of thousands of distinct
+	// words in one block), with a fast and a slow entropy codec (they select the two TEXT variants)
+	for _, en := range []string{"HUFFMAN", "FPAQ", "ANS1"} {
+		idx0++
+		if !r.Mine(idx0) {
+			continue
+		}
+		c := C01Case{Cfg: gen.Config{Transform: "TEXT", Entropy: en, BlockSize: 1 << 20, Jobs: 2, Checksum: 32, HintClass: "absent"},
+			Data: gen.Recipe{Kind: gen.KLatin1, Len: 1<<20 + 300000, Seed: uint64(idx0), P1: 0, P2: 100}, ReadJobs: 2}
+		r.Label("fixed:large-vocabulary")
+		if msg := runC01(r, c); msg != "" {
+			if slug := c01Known(r, c, msg); slug != "" {
+				r.Excluded(slug)
+				continue
+			}
+			if r.Survey() {
+				r.Violation(t, "roundtrip", c, "%s", msg)
+				continue
+			}
+			r.RecordFailure("roundtrip", c, "", msg)
+			t.Fatalf("large vocabulary: %s on %s", msg, jsonOf(c))
+		}
+	}
 	// exhaustive chains of length <= 2 on three fixed data kinds (thorough only)
 	if r.Thorough() {
 		idx := 0
